@@ -53,6 +53,9 @@ func patternLengths(thorough bool) []int {
 const (
 	shapeFail = "fail-once+retry"
 	shapeOK   = "success"
+	// the producer has a step-level retryPolicy: its first attempt prints something else and fails,
+	// the second prints the payload; the consumers must see the last attempt's output only
+	shapeStepRetry = "step-retry"
 )
 
 func enumOutputs(thorough bool) []omember {
@@ -79,6 +82,15 @@ func enumOutputs(thorough bool) []omember {
 		for _, sh := range []string{shapeFail, shapeOK} {
 			out = append(out, omember{Payload: "pattern", Len: n, Shape: sh})
 		}
+	}
+	for _, p := range literalPayloads {
+		out = append(out, omember{Payload: p.name, Shape: shapeStepRetry})
+	}
+	for _, n := range []int{1, 4096, 65535} {
+		if n == 65535 && !thorough {
+			continue
+		}
+		out = append(out, omember{Payload: "pattern", Len: n, Shape: shapeStepRetry})
 	}
 	return out
 }
@@ -128,7 +140,12 @@ func (h *harness) outputYAML(file, tag string, m omember, payloadFile, pids stri
 	}
 	var sb strings.Builder
 	fmt.Fprintf(&sb, "steps:\n")
-	fmt.Fprintf(&sb, "  - name: prod\n    command: sh %s %s %s\n    output: OUT\n", filepath.Join(w, "prod.sh"), payloadFile, pids)
+	if m.Shape == shapeStepRetry {
+		fmt.Fprintf(&sb, "  - name: prod\n    command: sh %s %s %s %s\n    output: OUT\n    retryPolicy:\n      limit: 1\n      intervalSec: 0\n",
+			filepath.Join(w, "prodretry.sh"), payloadFile, pids, probe("pmarker"))
+	} else {
+		fmt.Fprintf(&sb, "  - name: prod\n    command: sh %s %s %s\n    output: OUT\n", filepath.Join(w, "prod.sh"), payloadFile, pids)
+	}
 	fmt.Fprintf(&sb, "  - name: adj\n    command: %s\n    depends:\n      - prod\n", cons("adj", "-"))
 	if m.Shape == shapeFail {
 		fmt.Fprintf(&sb, "  - name: far\n    command: %s\n    depends:\n      - adj\n", cons("far", "-"))
@@ -171,7 +188,7 @@ func (h *harness) runOutput(m omember) {
 				_ = os.Remove(probe(n) + s)
 			}
 		}
-		for _, f := range []string{file, payloadFile, pids, probe("marker")} {
+		for _, f := range []string{file, payloadFile, pids, probe("marker"), probe("pmarker")} {
 			_ = os.Remove(f)
 		}
 		_ = h.env.Stores().HistoryStore().RemoveAll(file)
@@ -252,6 +269,14 @@ func (h *harness) runOutput(m omember) {
 			_ = os.WriteFile(probe("adj")+".arg", []byte(s.arg), 0o644)
 			_ = os.WriteFile(probe("adj")+".set", []byte(s.set), 0o644)
 		}
+	}
+	if m.Shape == shapeStepRetry {
+		if _, err := os.Stat(probe("pmarker")); err != nil {
+			res.CheckError("%s: the producer's first attempt did not run (%v)", m, err)
+			return
+		}
+		check("start", map[string]string{"adj": "after-step-retry/adjacent", "success": "after-step-retry/on-success", "exit": "after-step-retry/on-exit"}, []string{"adj", "success", "exit"})
+		return
 	}
 	if m.Shape == shapeOK {
 		check("start", map[string]string{"adj": "adjacent", "success": "on-success", "exit": "on-exit"}, []string{"adj", "success", "exit"})
